@@ -144,7 +144,9 @@ def numbered : List PToken → Nat → List PToken
   | [], _ => []
   | t :: rest, k => { t with col := k } :: numbered rest (k + 1)
 
-/-- the fragment claim INCLUDING acceptance (`parse` returns `ok`) — not proved in this form.  What IS proved, for all token
+/-- the fragment claim INCLUDING acceptance (`parse` returns `ok`): proved, on the larger fragment with trivia and with the
+    positions stated as `NumberedFrom 0 toks`, as `Garnish.Props.C02Parse.C02_modelParse_binary` (and with prefix operators
+    as `C02_parse_correct_fragment_prefix`); this `def` with `binShape` / `numbered` is kept for reference only.  What IS proved, for all token
     lists `value (trivia* binop trivia* value)*` without length bound, is the conditional form "whenever `parse` accepts,
     the node array is a proper tree and it is the reference tree": `Garnish.Props.C02Parse.C02_parse_correct_fragment`
     (Garnish/Props/C02Parse.lean).  Original note:
